@@ -655,9 +655,24 @@ func (hl MapLiteral) PrettyPrint(out *PrintState) *PrintState {
 		if i > 0 {
 			out.Print(sep)
 		}
+		// A pair is parsed as the two operands of the : operator: same parentheses as any other infix operands.
+		colon := Precedences[token.COLON]
+		oldPrecedence := out.ExpressionPrecedence
+		out.ExpressionPrecedence = colon
 		key.PrettyPrint(out)
 		out.Print(":")
-		hl.Pairs[key].PrettyPrint(out)
+		out.ExpressionPrecedence = colon
+		value := hl.Pairs[key]
+		r, isInfix := value.(*InfixExpression)
+		sameLevel := isInfix && !out.AllParens && Precedences[r.Type()] == colon // left associative: k:(a&&b) isn't k:a&&b.
+		if sameLevel {
+			out.Print("(")
+		}
+		value.PrettyPrint(out)
+		if sameLevel {
+			out.Print(")")
+		}
+		out.ExpressionPrecedence = oldPrecedence
 	}
 	out.Print("}")
 	return out
